@@ -17,7 +17,7 @@ func init() {
 		ID:          "C15",
 		Explanation: "LOAD-FILTER: every file name reaching rawLoadFile from rawLoadPackage passed the `_test.go` suffix filter, the call passes checkBC = true, an excluded file yields an empty tree that is skipped, the constraint evaluator's tag predicate is exactly t == \"goat\" and a file without a //go:build line is included; more than one package clause is an error. LOAD-KAHN: the skeleton of Kahn's algorithm as checkable facts — (K1) for every import token the same unquoted path is pushed on the worklist and inserted into deps[pkg]; (K2) the selection of a package is preceded, in the selection loop, by the test that its dependency set is empty; (K3) on selection the package is deleted from packages, from deps and from every remaining dependency set, and nothing else deletes from those; (K4) exactly one tree is appended to the result per iteration; (K5) compilePkgs consumes the list in order and Load/Eval pass it unchanged. LOAD-CYCLE (shared with C03's selection-drain premise): when no package is selectable the loop returns an error instead of continuing with the zero key, and the candidate list shrinks every iteration (no panic, no spin on any graph). Given K1-K5, 'each package is emitted once, after all its imports' follows by induction on the loop (the facts are what is checked, the induction is stated). Not decided: that init functions run (FUNC; CALL by inspection), vendor/shortened-path search order.",
 		Quick: []ruleDef{
-			{"LOAD-FILTER", 9, ruleLoadFilter},
+			{"LOAD-FILTER", 6, ruleLoadFilter},
 			{"LOAD-KAHN", 6, ruleLoadKahn},
 			{"LOAD-CYCLE", 1, ruleLoadCycle},
 			{"LOAD-SORT", 3, ruleLoadSort},
@@ -36,11 +36,11 @@ func init() {
 		ID:          "C19",
 		Explanation: "API-ADAPT: sibling agreement among the six NewFunc adapters, executed with the stack length model — every N-ary adapter takes stack[len-argc:] as the argument slice, truncates the stack to len-argc before calling the native function, then appends the callee's results in order (none / one / all); the variadic adapter registers -argc and passes a[:argc-1] plus the spread data() of the last argument; the 0-ary adapters leave the arguments alone. API-ACCESSOR: each constructor/accessor pair agrees on Go type and tag and converts only between float64 and that type. PAN-ERRDROP(re-entry): inside the module no call of Func/Call/Eval/Load/run discards its error (sort comparators re-panic it, which run's guard converts). FUNC-RESULT: Func returns the top xRets entries of its private stack. Not decided: scalar round-trips over each domain (value level, exact for 32-bit ranges by construction of API-ACCESSOR).",
 		Quick: []ruleDef{
-			{"API-ADAPT", 9, ruleApiAdapt},
+			{"API-ADAPT", 6, ruleApiAdapt},
 			{"API-ACCESSOR", 8, ruleApiAccessor},
-			{"PAN-ERRDROP", 5, ruleErrDropReentry},
+			{"PAN-ERRDROP", 3, ruleErrDropReentry},
 			{"FUNC-RESULT", 1, ruleFuncResult},
-			{"FUNC-ISOLATED", 3, ruleFuncIsolated},
+			{"FUNC-ISOLATED", 2, ruleFuncIsolated},
 		},
 	})
 	register(&propDef{
@@ -50,7 +50,7 @@ func init() {
 			{"POS-STAMP", 2, rulePosStamp},
 			{"POS-FUSED", 15, rulePosFused},
 			{"FRM-PAIR", 6, ruleFrmPair},
-			{"BT-ORDER", 4, ruleBtOrder},
+			{"BT-ORDER", 2, ruleBtOrder},
 			{"POS-NODE", 1, rulePosNode},
 		},
 	})
